@@ -238,6 +238,37 @@ pub fn sat(fs: &[&str]) -> String {
             ll::Relations::from(entries).satisfied_by(closure)
         }),
     };
+    // every versioned alternative gets its constraint through Relation::set_version: even
+    // positions start from Relation::simple (insert path), odd ones from Relation::new(name, (=, v))
+    // (replace path)
+    let sv = match &typed {
+        None => dash(),
+        Some(t) => rb(|| {
+            let entries: Vec<ll::Entry> = t
+                .iter()
+                .map(|e| {
+                    ll::Entry::from(
+                        e.iter()
+                            .enumerate()
+                            .map(|(i, (n, v))| match v {
+                                None => ll::Relation::simple(n),
+                                Some((vc, ver)) => {
+                                    let mut r = if i % 2 == 1 {
+                                        ll::Relation::new(n, Some((VersionConstraint::Equal, ver.clone())))
+                                    } else {
+                                        ll::Relation::simple(n)
+                                    };
+                                    r.set_version(Some((vc.clone(), ver.clone())));
+                                    r
+                                }
+                            })
+                            .collect::<Vec<_>>(),
+                    )
+                })
+                .collect();
+            ll::Relations::from(entries).satisfied_by(closure)
+        }),
+    };
     let yc = match &lossy_c {
         None => dash(),
         Some(c) => rb(|| c.satisfied_by(closure)),
@@ -272,9 +303,9 @@ pub fn sat(fs: &[&str]) -> String {
             .collect()
     };
     format!(
-        "ty={}|ll={}|lr={}|ne={}|le={}|ly={}|rt={}|lc={}|yc={}|ym={}|yp={}|lk={}",
+        "ty={}|ll={}|lr={}|ne={}|le={}|ly={}|rt={}|lc={}|yc={}|ym={}|yp={}|sv={}|lk={}",
         if typed.is_some() { "1" } else { "0" },
-        ll, lr, ne, le, ly, rt, lc, yc, ym, yp, lk.join(",")
+        ll, lr, ne, le, ly, rt, lc, yc, ym, yp, sv, lk.join(",")
     )
 }
 
